@@ -211,6 +211,10 @@ pub struct LoopScn {
     pub overheads: [u128; 4],
     pub panic: Option<PanicPlan>,
     pub spurious_parks: Vec<(usize, u32)>,
+    /// Thread count of a small benchmark run first on the same shared
+    /// context (one thread pool reused by consecutive benchmarks with
+    /// different thread counts, as in a real run); 0 = none.
+    pub prelude_threads: usize,
 }
 
 impl Default for LoopScn {
@@ -244,6 +248,7 @@ impl Default for LoopScn {
             overheads: [0; 4],
             panic: None,
             spurious_parks: Vec::new(),
+            prelude_threads: 0,
         }
     }
 }
@@ -347,6 +352,7 @@ impl LoopScn {
                 "phase": panic_phase_name(p.phase), "tids": p.tids, "index": p.index,
             })),
             "spurious_parks": self.spurious_parks.iter().map(|&(t, k)| json!([t, k])).collect::<Vec<_>>(),
+            "prelude_threads": self.prelude_threads,
         })
     }
 
@@ -435,6 +441,7 @@ impl LoopScn {
                 .iter()
                 .map(|p| Some((p[0].as_u64()? as usize, p[1].as_u64()? as u32)))
                 .collect::<Option<Vec<_>>>()?,
+            prelude_threads: v["prelude_threads"].as_u64().unwrap_or(0) as usize,
         })
     }
 
@@ -467,6 +474,7 @@ impl LoopScn {
             }
         }
         h.u64(self.spurious_parks.len() as u64);
+        h.u64(self.prelude_threads as u64);
         h.finish()
     }
 
@@ -962,6 +970,9 @@ fn dispatch(bencher: Bencher, ctx: &Arc<LoopCtx>) {
 // Execution
 // ---------------------------------------------------------------------------
 
+/// Marker event after the prelude benchmark; oracles look at what follows.
+pub const PRELUDE_END: u32 = 77;
+
 #[derive(Default)]
 pub struct LoopOut {
     pub returned: bool,
@@ -987,12 +998,28 @@ impl LoopScn {
         let out: Arc<Mutex<LoopOut>> = Arc::new(Mutex::new(LoopOut::default()));
         let out2 = out.clone();
         let loop_cfg = self.loop_cfg();
+        let prelude_threads = self.prelude_threads;
         let result = dsim::run(
             cfg,
             Box::new(move || {
+                let shared = divan::verif::Shared::new(loop_cfg.test_mode, loop_cfg.tsc_frequency);
+                if prelude_threads > 0 {
+                    // An earlier benchmark of the same run: leaves workers,
+                    // possibly a stale wake-up token, behind.
+                    let pcfg = LoopCfg {
+                        sample_count: Some(prelude_threads as u32),
+                        sample_size: Some(1),
+                        threads: prelude_threads,
+                        ..loop_cfg.clone()
+                    };
+                    let pcfg = LoopCfg { min_time: None, max_time: None, const_counters: [None; 4], ..pcfg };
+                    let _ = divan::verif::with_bencher_on(&shared, &pcfg, &mut |b| b.bench(|| ()));
+                    probe::event(UserEv::Mark { tag: PRELUDE_END, a: 0, b: 0 });
+                }
                 probe::event(UserEv::LoopBegin);
                 let _ = crate::common::take_last_panic();
-                let o = divan::verif::with_bencher(&loop_cfg, &mut |b| dispatch(b, &ctx));
+                let o = divan::verif::with_bencher_on(&shared, &loop_cfg, &mut |b| dispatch(b, &ctx));
+                drop(shared);
                 probe::event(UserEv::LoopReturn { caller_panicked: o.caller_panic.is_some() });
                 let mut lo = out2.lock().unwrap();
                 lo.returned = true;
